@@ -210,7 +210,7 @@ func ruleRunGuardServer(c *chk.Ctx) {
 			if ci, ok := ins.(ssa.CallInstruction); ok && len(ci.Common().Args) > 0 && chk.IsField(ci.Common().Args[0], c.M.SInq) {
 				name := ir.BaseName(ci.Common().StaticCallee())
 				if name == "Add" || name == "Push" {
-					if f == stop || (f.Parent() == stop && stop != nil) {
+					if stop != nil && c.P.InExt(stop, f) {
 						c.Exists("RUN.guard", f, "queue insert", ci.Pos(), "insert inside the stop function (retained notifications)")
 					} else {
 						ok, why := running(c, st, "server")
@@ -223,7 +223,7 @@ func ruleRunGuardServer(c *chk.Ctx) {
 			if call, ok := ins.(*ssa.Call); ok {
 				if b, isB := call.Call.Value.(*ssa.Builtin); isB && b.Name() == "close" && chk.LoadsField(call.Call.Args[0], c.M.SWork) {
 					ok, why := running(c, st, "server")
-					ok = ok && f == stop && st.Has(facts.Held, lock)
+					ok = ok && stop != nil && c.P.InExt(stop, f) && st.Has(facts.Held, lock)
 					c.Check(ok, "RUN.guard", f, "close work channel", call.Pos(), "closed once, in the stop function, with "+why, "work channel closed outside the guarded stop path: a second close panics")
 				}
 			}
@@ -619,10 +619,49 @@ func ruleReaderExitStops(c *chk.Ctx, owner string) {
 				}
 			}
 		})
-		if !stopped {
-			// already stopped: IsNil(ch) established under the lock on this path
-			for _, cd := range ir.CondsAt(r.Block()) {
+		alreadyStopped := func(b *ssa.BasicBlock) bool {
+			for _, cd := range ir.CondsAt(b) {
 				if x, eq, ok := ir.NilCompare(cd.V); ok && chk.LoadsField(x, ownerCh(c, owner)) && eq == cd.Truth {
+					return true
+				}
+			}
+			return false
+		}
+		if !stopped && alreadyStopped(r.Block()) {
+			stopped = true
+		}
+		if !stopped {
+			// the decision to exit may be made by a private helper that reports it as a boolean:
+			// every return of the helper with that value must follow a stop (or an already-stopped test)
+			for _, cd := range ir.CondsAt(r.Block()) {
+				call, ok := cd.V.(*ssa.Call)
+				if !ok || call.Call.StaticCallee() == nil || !c.P.InExt(reader, call.Call.StaticCallee()) {
+					continue
+				}
+				h := call.Call.StaticCallee()
+				all, n := true, 0
+				for _, hr := range ir.Returns(h) {
+					k, isK := ir.ReturnResult(hr, 0).(*ssa.Const)
+					if !isK || k.Value == nil || (k.Value.String() == "true") != cd.Truth {
+						if !isK {
+							all = false
+						}
+						continue
+					}
+					n++
+					okr := alreadyStopped(hr.Block())
+					ir.Calls(h, func(ci ssa.CallInstruction) {
+						for _, g := range calleesOf(c, ci) {
+							if g == stop && ir.InstrDominates(ci, hr) {
+								okr = true
+							}
+						}
+					})
+					if !okr {
+						all = false
+					}
+				}
+				if all && n > 0 {
 					stopped = true
 				}
 			}
